@@ -42,7 +42,7 @@ def restore_names(model, threshold=0.6):
     cur = {q[len(pkg):]: fi for q, fi in model.funcs.items()}
     schema = set(ref_funcs.get("__schema__", []))
     vanished = [q for q in ref_funcs
-                if q != "__schema__" and ".<locals>." not in q and
+                if not q.startswith("__") and ".<locals>." not in q and
                 q not in cur and q in ref_sigs]
     new = [q for q, fi in cur.items() if q not in ref_funcs and
            fi.module[len(pkg):] not in schema and fi.module not in schema]
@@ -53,10 +53,20 @@ def restore_names(model, threshold=0.6):
         return q.rsplit(".", 1)[0] if "." in q else ""
     shapes_new = {}
     scores = []
+    ref_callers = ref_funcs.get("__callers__", {})
+    cur_callers = {}
+    for q, fi in cur.items():
+        for c in ast.walk(fi.node):
+            if isinstance(c, ast.Call):
+                nm = getattr(c.func, "attr", None) or getattr(c.func, "id", None)
+                if nm:
+                    cur_callers.setdefault(nm, set()).add(q)
     for v in vanished:
         sv = _shape(ref_sigs[v])
         if sum(sv.values()) < 3:
             continue
+        vname = v.rsplit(".", 1)[-1]
+        vc = set(ref_callers.get(vname, []))
         for n in new:
             if scope(n) != scope(v):
                 continue
@@ -64,6 +74,13 @@ def restore_names(model, threshold=0.6):
                 shapes_new[n] = _shape({k: dict(c) for k, c in
                                         alpha.signatures(cur[n].node).items()})
             s = _sim(sv, shapes_new[n])
+            # the same functions that called the vanished name now call the
+            # new one (and nobody calls the vanished name any more)
+            nc = cur_callers.get(n.rsplit(".", 1)[-1], set())
+            if vc and nc and vname not in cur_callers:
+                cj = len(vc & nc) / float(len(vc | nc))
+                if cj >= 0.6 and s >= 0.25:
+                    s = max(s, 0.6 + 0.4 * cj)
             if s >= threshold:
                 scores.append((s, v, n))
     scores.sort(key=lambda t: (-t[0], t[1], t[2]))
